@@ -125,6 +125,18 @@ func (d *Decoder) decodeOBUs(pkt *rtp.Packet) ([][]byte, error) {
 				errSize, av1.MaxTemporalUnitSize)
 		}
 
+		// fragments belong to the temporal unit that is being buffered:
+		// they are subject to the same maximum size, together.
+		if (d.frameBufferSize + d.fragmentsSize) > av1.MaxTemporalUnitSize {
+			errSize := d.frameBufferSize + d.fragmentsSize
+			d.resetFragments()
+			d.frameBuffer = nil
+			d.frameBufferLen = 0
+			d.frameBufferSize = 0
+			return nil, fmt.Errorf("temporal unit size (%d) is too big, maximum is %d",
+				errSize, av1.MaxTemporalUnitSize)
+		}
+
 		d.fragments = append(d.fragments, obus[0])
 		d.fragmentNextSeqNum++
 
